@@ -40,9 +40,9 @@ Fixpoint file_crc32_go (fuel : nat) (rest : list Z) (checksum : Z) : Z :=
   end.
 Definition file_crc32 (file : list Z) : Z := file_crc32_go (S (length file)) file 0.
 
-(* C02 repairs Section.data with `if not decomp.eof: raise ELFCompressionError`.
-   The model follows the code: this is the ONE switch to flip when that commit lands. *)
-Definition GABI_EOF_CHECK : bool := false.
+(* Section.data checks `decomp.eof` since the C02 repair (commit d25be29); the
+   unrepaired reading (false) is kept for the _refuted theorem of Props/C11.v. *)
+Definition GABI_EOF_CHECK : bool := true.
 
 Section Model.
 Variable inflate : list Z -> Z -> option (list Z * bool).
@@ -72,6 +72,8 @@ Definition section_data_gen (eofchk : bool) (e : elf) (sc : section) : res (list
     if sc_ctype sc =? ELFCOMPRESS_ZLIB then
       let hdr_size := chdr_size (e_is64 e) in
       let compressed := py_read (s_size s - Z.of_nat hdr_size) (skipn hdr_size (s_stream s)) in
+      (* max_length is a C ssize_t *)
+      if 2 ^ 63 <=? sc_dsize sc then Err (EPy "OverflowError") else
       match inflate compressed (sc_dsize sc) with
       | None => Err (EPy "error")                       (* zlib.error *)
       | Some (result, eof) =>
